@@ -199,6 +199,18 @@ def nameSlot (segs : List Seg) : Option (Nat × NameKind × Bool) :=
 def nameAt (off : Nat) (line : Str) : Option Str :=
   (cppStringLit (line.drop off)).map (·.1)
 
+/-- the literal at the name's place of this line (if the line has one) denotes the name -/
+def slotCarries (tbl : List (Char × Str)) (tree col var : Str) (segs : List Seg) : Bool :=
+  match nameSlot segs with
+  | some (off, k, _) => nameAt off (renderSegs tbl tree col var segs) == some (pickName k tree col)
+  | none => true
+
+/-- the line copies its name verbatim (no escaping) -/
+def verbatimSlot (segs : List Seg) : Bool :=
+  match nameSlot segs with
+  | some (_, _, esc) => !esc
+  | none => false
+
 /-! ### all string literals of a line (a second, table-independent oracle for the harness)
 
 `nameAt` looks at the place the regenerated table gives; if the emitters change shape so that the
